@@ -393,7 +393,16 @@ def member_variant(rng, P: gen.Profile, fam_scn: eng.Scn, name: str) -> eng.Scn:
         ops.insert(rng.randint(1, len(ops)), (rng.choice(["allowed", "events"]),))
     s.ops = ops
     gen.gen_acts(rng, P, s, evs, n)
+    fix_attr_rows(s, fam_scn)
     return s
+
+
+def fix_attr_rows(s: eng.Scn, fam_scn: eng.Scn):
+    """plain-attribute callbacks provided by the machine hold the *class's* value (the class is built from the
+    family's definition); those of models and listeners are per object"""
+    fixed = {c.id for c in s.cbs if c.style == "attr" and c.provider == "machine"}
+    if fixed:
+        s.acts = [a for a in s.acts if a[0] not in fixed] + [a for a in fam_scn.acts if a[0] in fixed]
 
 
 def gen_world(rng, P: gen.Profile, name: str) -> World:
@@ -498,6 +507,7 @@ def gen_world(rng, P: gen.Profile, name: str) -> World:
                 ms.rtc = True if ms.is_async() else ms.rtc
                 evs = sorted({e for t in ms.trans for e in t.events})
                 gen.gen_acts(rng, P, ms, evs, len(ms.ops))
+                fix_attr_rows(ms, fam.scn)
             w.members.append(Member(fam=fi, scn=ms))
     # base-first or subclass-first instantiation order is drawn by the merge below
     slots = []
@@ -510,7 +520,8 @@ def gen_world(rng, P: gen.Profile, name: str) -> World:
     if not w.loop and len(sync_members) >= 2 and rng.random() < 0.5:
         for _ in range(rng.randint(1, 3)):
             host, guest = rng.sample(sync_members, 2)
-            acts = [c for c in w.members[host].scn.cbs if c.group not in ("cond", "unless", "validators") and not c.coro]
+            acts = [c for c in w.members[host].scn.cbs if c.group not in ("cond", "unless", "validators") and not c.coro
+                    and c.style not in ("attr", "evref")]
             if acts:
                 c = rng.choice(acts)
                 w.cross.append((host, c.id, rng.randint(0, 6), guest))
